@@ -70,6 +70,16 @@ def run(ctx, chk):
                 continue
             label = GA.prod_label(nt, k)
             where = f"{GA.g['file']}:{p['line']}"
+            # an action that emits an instruction on one accepted path and nothing on another drops a source instruction
+            # under some condition: every label bound later is then one short for that program (actions that never emit,
+            # like labels, directives or `nop`, are not concerned)
+            acc = [q for q in E.prod_paths(nt, k) if getattr(q, "action", None) == ua["idx"] and not any(e.kind == "error" for e in q.effects)]
+            counts = [sum(1 for e in q.effects if e.kind == "push" and e.target == "out.code") for q in acc]
+            if nt != "procedure" and any(c == 0 for c in counts) and any(c > 0 for c in counts):
+                q0 = acc[counts.index(0)]
+                chk.violation("C08.R2", label, "emits-conditionally",
+                              f"{label}: the action emits its instruction on some accepted paths and nothing on others "
+                              f"({'; '.join(f'{c[0]}={c[1]}' for c in q0.conds)[:160] or 'unconditional'}): the instruction is dropped there and execution does not follow the source", where)
             for q in E.prod_paths(nt, k):
                 if getattr(q, "action", None) != ua["idx"]:
                     continue
